@@ -732,7 +732,7 @@ func (e *env) call(x *ECall) *sym {
 			e.errf("isClosure(f, \"name\")")
 		}
 		if a.clos != nil && a.clos.fn != nil {
-			full := a.clos.fn.String()
+			full := nameOf(a.clos.fn)
 			pk := ""
 			if a.clos.fn.Pkg != nil {
 				pk = a.clos.fn.Pkg.Pkg.Path()
